@@ -203,6 +203,15 @@ def gen_member_case(rng, cid):
             for y in surv:
                 if rng.random() < 0.8:
                     ops.append({"op": "liveness", "n": y, "levels": {nodes[L]["id"]: rng.choice([25.0, 1e9])}})
+            if rng.random() < 0.45:
+                # ... and leaves gracefully after all: the news reaches nodes that already hold it as unreachable
+                ops.append({"op": "leave", "n": L})
+                for y in surv:
+                    if rng.random() < 0.6:
+                        ops.append({"op": "leavestream", "a": L, "b": y})
+                if rng.random() < 0.5 and len(surv) >= 2:
+                    x, y = rng.sample(surv, 2)
+                    exchange(x, y)
         gone.append(L)
         for _ in range(rng.randint(1, 4)):
             r = rng.random()
